@@ -928,6 +928,75 @@ void Sim::dumpDB() {
     OUT("db api-foreign first=" << ok1 << " second=" << ok2 << " epoch=" << second << " getkeys=" << (ok3 && e3.empty())
                                 << " nkeys=" << keys.size());
   }
+  // (4) through the C interface llb_database_*: every key with its result (get_keys_and_results) and, per key, the
+  // single lookup - a client reading the file back through the binding must see what core::BuildDB shows above
+  {
+    // (llb_database_* hands keys out as build-system keys: it is asked only when every stored key starts with one
+    // of the build system's kind identifiers)
+    bool allBuildKeys = getenv("ENGINESIM_CAPI_DB") != nullptr;
+    if (allBuildKeys) {
+      std::string e0;
+      auto bdb = createSQLiteBuildDB(dbPath, clientVersion, /*recreate=*/false, &e0);
+      DumpDelegate dd;
+      bdb->attachDelegate(&dd);
+      std::vector<KeyType> ks;
+      if (!bdb->getKeys(ks, &e0) || !e0.empty()) allBuildKeys = false;
+      for (auto& k : ks)
+        if (k.str().empty() || !strchr("CDdNISsTX", k.str()[0])) allBuildKeys = false;
+    }
+    std::string pathBuf = dbPath;
+    llb_data_t err = {0, nullptr};
+    auto* cdb = allBuildKeys ? (llb_database_t*)llb_database_open(&pathBuf[0], clientVersion, &err) : nullptr;
+    if (!allBuildKeys) {
+      OUT("db capi-skipped");
+    } else if (!cdb) {
+      OUT("db capi-open-failed " << hex(std::string((const char*)err.data, err.length)));
+    } else {
+      llb_data_t e2 = {0, nullptr};
+      uint64_t ep = llb_database_get_epoch(cdb, &e2);
+      OUT("db capi-epoch epoch=" << ep << " err=" << (e2.length ? 1 : 0));
+      llb_database_fetch_result_t* fr = nullptr;
+      llb_data_t e3 = {0, nullptr};
+      bool ok = llb_database_get_keys_and_results(cdb, &fr, &e3);
+      auto keyHex = [](llb_build_key_t* k) {
+        std::string raw;
+        llb_build_key_get_key_data(k, &raw, [](void* c, uint8_t* d, size_t n) {
+          ((std::string*)c)->assign((const char*)d, n);
+        });
+        return hex(raw);
+      };
+      auto resText = [&](llb_database_result_t* r) {
+        std::ostringstream o;
+        o << "value=" << hex(std::string((const char*)r->value.data, r->value.length)) << " built=" << r->built_at
+          << " computed=" << r->computed_at << " deps=";
+        for (uint32_t i = 0; i < r->dependencies_count; ++i) o << (i ? "," : "") << keyHex(r->dependencies[i]);
+        if (!r->dependencies_count) o << "-";
+        return o.str();
+      };
+      if (!ok || !fr) {
+        OUT("db capi-fetch-failed ok=" << ok);
+      } else {
+        auto n = llb_database_fetch_result_get_count(fr);
+        for (llb_database_key_id i = 0; i < n; ++i) {
+          auto* k = llb_database_fetch_result_get_key_at_index(fr, (int32_t)i);
+          auto* r = llb_database_fetch_result_get_result_at_index(fr, (int32_t)i);
+          OUT("db capi key=" << keyHex(k) << " " << resText(r));
+          // the same key looked up on its own, by a key object the client makes from the bytes
+          std::string raw = unhex(keyHex(k));
+          llb_data_t kd = {raw.size(), (const uint8_t*)raw.data()};
+          auto* mk = llb_build_key_make(&kd);
+          llb_database_result_t one;
+          llb_data_t e4 = {0, nullptr};
+          bool found = llb_database_lookup_rule_result(cdb, mk, &one, &e4);
+          OUT("db capi-lookup key=" << hex(raw) << " found=" << found << " " << resText(&one));
+          llb_database_destroy_result(&one);
+          llb_build_key_destroy(mk);
+        }
+        llb_database_destroy_fetch_result(fr);
+      }
+      llb_database_destroy(cdb);
+    }
+  }
   OUT("db-end");
 }
 
